@@ -393,6 +393,17 @@ func genPacked(o *Out, r *Rng, n int, tier string) {
 			o.emit("C03", "CB", "74", hx(r.Bytes(5000)))
 		}
 	}
+	// streams of tiny entries (12 and 15 bytes each: below any "average entry" guess), 1 … 40 of them
+	o.emit("C07", "HRESET")
+	for k := 1; k <= 40; k++ {
+		var s1, s2 []byte
+		for i := 0; i < k; i++ {
+			s1 = append(s1, nArr(nExt(0, []byte{0, 0, 0, byte(i), 0, 0, 0, 1}), nMap()).Enc()...)
+			s2 = append(s2, nArr(nExt(0, []byte{0, 0, 1, byte(i), 0, 0, 0, 2}), nMap(nStr([]byte("a")), nInt(int64(i%100)))).Enc()...)
+		}
+		o.emit("C03", "UP", hx(s1))
+		o.emit("C03", "UP", hx(s2))
+	}
 	for h := 0; h < n; h++ {
 		o.emit("C07", "HRESET")
 		steps := 3 + r.Intn(8)
